@@ -485,6 +485,9 @@ func (e *Engine) exprKey(v ssa.Value, depth int) string {
 		}
 		return "phi"
 	case *ssa.Alloc:
+		if load.NeverWritten(x) {
+			return "zero" // a local that is only ever read holds the zero value of its type
+		}
 		if x.Comment != "" {
 			return x.Comment
 		}
@@ -621,10 +624,39 @@ func (e *Engine) Sinks() []report.Obligation {
 	var out []report.Obligation
 	cfg := e.P.Config.Name
 	keyCount := map[string]int{}
+	gs := e.P.Guards()
 	add := func(rule string, f *ssa.Function, in ssa.Instruction, construct string, bad bool, what string) {
-		key := rule + "/" + load.ShortName(f) + "/" + construct
+		fname := load.ShortName(f)
+		canon := false
+		if bad && gs.InGuardFamily(f) {
+			// the initialisation guard, in whatever functions it is written: a decision that is a function of
+			// "x is the zero Element" / "y is the zero Element" of the inspected Point is one construct, named
+			// after the coordinate it depends on (so that a restructured guard keeps the keys of the same finding)
+			switch x := in.(type) {
+			case *ssa.If:
+				if _, dy, ok := gs.CondAtoms(f, x.Cond); ok {
+					fname, canon = "checkInitialized", true
+					construct = "Point.x==zero"
+					if dy {
+						construct = "Point.y==zero"
+					}
+				}
+			case *ssa.BinOp:
+				if _, dy, ok := gs.CondAtoms(f, x); ok {
+					fname, canon = "checkInitialized", true
+					construct = "Point.x==zero"
+					if dy {
+						construct = "Point.y==zero"
+					}
+				}
+			}
+		}
+		key := rule + "/" + fname + "/" + construct
 		keyCount[key]++
 		if n := keyCount[key]; n > 1 {
+			if canon {
+				return // the same decision taken again (e.g. on the result of the predicate)
+			}
 			key = fmt.Sprintf("%s#%d", key, n)
 		}
 		e.NSinks[rule]++
